@@ -1,6 +1,775 @@
-//! C18 — stub (not yet implemented; not registered in MANIFEST.json).
-use crate::fw::{CheckDef, Ctx};
+//! C18 — Camt053 import conserves the statement.
+//!
+//! The generator renders camt.053 XML documents (same element skeleton as okane's sample
+//! `cli/tests/testdata/import/iso_camt.xml`) for EVERY consistent single-currency statement inside the
+//! bounds of the tier, the real importer is run on each one twice
+//!   (a) `okane::import::import(.., Format::IsoCamt053, ..)` + `Txn::to_double_entry`  (the transactions),
+//!   (b) `okane::cmd::ImportCmd::run` on real files                                      (the printed text),
+//! and both observations are compared with a reference written from the property statement. Then
+//! `funding transaction` + printed text goes through the real `report::process`; it must be accepted and
+//! leave the account at the closing balance (exact rationals).
+//!
+//! Reference (RefImport), for a statement with opening O, closing C = O + credits - debits and entries
+//! e1..en in chronological order (the FILE order is chronological for row_order=old_to_new and reversed for
+//! new_to_old):
+//!   T0            an opening-balance transaction whose account posting asserts "= O"
+//!   per entry     one transaction (no TxDtls) or one per TxDtls (batched entry), in chronological/detail
+//!                 order, account posting = +amount (CRDT) / -amount (DBIT),
+//!                 date = value date if given else booking date,
+//!                 effective date = booking date iff a value date is given and differs, else none
+//!   last          its account posting asserts "= C"
+//! Silent (not judged directly): payee, counter-account, how charges are split into postings, date and
+//! amount of T0, assertions on intermediate transactions. They are judged indirectly by the book-keeping
+//! and final-balance clauses.
 
-pub const DEF: CheckDef = CheckDef { id: "C18", run, technique: "stub", rule: "stub", assumptions: &[], shards: 0, hang_s: 20, single_worker: false };
+use std::path::PathBuf;
 
-fn run(_ctx: &mut Ctx) {}
+use chrono::{Duration, NaiveDate};
+use okane_core::parse::{parse_ledger, ParseOptions};
+use okane_core::syntax::{expr, plain};
+
+use crate::fw::{CheckDef, Ctx, Outcome};
+use crate::oka;
+use crate::q::Q;
+
+pub const DEF: CheckDef = CheckDef {
+    id: "C18",
+    run,
+    technique: "bounded-exhaustive enumeration of consistent camt.053 statements rendered as XML by the generator; the real importer (library entry point and ImportCmd on real files) is compared with a reference import written from the statement, and funding + printed output is fed back through the real report::process (acceptance and exact final balance)",
+    rule: "case = one statement = (opening balance {0, 100.00, -50.25}, row_order {old_to_new, new_to_old}, sequence of entries). Entry alphabet E (540) = side{CRDT,DBIT} x amount{0.05, 10.10, 1000} x dates{value=booking, booking=value+1, booking=value-1, value date absent, value date absent and booking date as DtTm with offset} x 18 detail/charge shapes (0/1/2 TxDtls summing to the entry; NtryDtls absent / Btch only; AmtDtls present/absent; charge: none, zero record, included at entry level, at detail level, at both, on the second detail only, not included). Families, each a complete product x 3 openings x 2 row orders: F0 no entry (6); F1 one entry over E (3 240); quick: F2 two entries over E2 = 96 (side x amount x {value=booking, booking=value+1} x 8 shapes) (55 296), F2d two entries over 20 = side x 10.10 x 5 dates x {k0,k2} (2 400), F3 three entries over 12 = side x amount x {k0, k2-det-incl} (10 368); thorough: F2 two entries over E (1 749 600), F3 three entries over 72 = side x amount x 2 dates x 6 shapes (2 239 488), F4 four entries over 12 (124 416). states = statements executed, transitions = ledger transactions compared with the reference (both observations), validated = MUST statements",
+    assumptions: &[
+        "the generator's XML skeleton follows okane's own sample file (cli/tests/testdata/import/iso_camt.xml); elements okane does not model (GrpHdr, Acct, TxsSummry, RvslInd, Sts, Btch totals, RltdPties) are constant",
+        "included charge: the entry/detail amount is the account movement; AmtDtls/TxAmt (when rendered) is the amount net of the included charges (debit: Amt - charges, credit: Amt + charges) as in the sample file; an entry-level charge on a two-detail batch is attributed to the first detail's TxAmt",
+        "printed text is read back with okane's own parser; acceptance and balances come from report::process (the subject of C01-C04, trusted here)",
+        "DON'T-CARE: statements without entries (no transaction can carry the two assertions) and statements containing a charge that is NOT included (outside the quantifier): they are executed, shape clauses are judged where applicable, acceptance/final balance are only recorded",
+        "silent and therefore not judged directly: payee, counter-account, charge postings, date and amount of the opening-balance transaction, assertions on intermediate transactions",
+    ],
+    shards: 64,
+    hang_s: 30,
+    single_worker: false,
+};
+
+const ACCOUNT: &str = "Assets:Bank";
+const CCY: &str = "CHF";
+
+/// opening balances in cents
+const OPENINGS: [i64; 3] = [0, 100_00, -50_25];
+/// entry amounts in cents, and the first part when split into two details
+const AMOUNTS: [i64; 3] = [5, 10_10, 1000_00];
+const FIRST_PART: [i64; 3] = [3, 10_00, 999_95];
+const ENTRY_CHARGE: i64 = 2;
+const DETAIL_CHARGE: i64 = 1;
+
+#[derive(Clone, Copy, PartialEq, Eq, Debug)]
+enum Side {
+    Credit,
+    Debit,
+}
+
+#[derive(Clone, Copy, PartialEq, Eq, Debug)]
+enum Dates {
+    Same,
+    BookLater,
+    BookEarlier,
+    ValueAbsent,
+    /// no value date, booking date given as <DtTm> with an offset whose UTC calendar day differs (Wise style)
+    BookDtTmOnly,
+}
+
+#[derive(Clone, Copy, PartialEq, Eq, Debug)]
+enum Chg {
+    None,
+    /// a record with amount 0 (as in the sample file): must change nothing
+    Zero,
+    Incl,
+    NotIncl,
+}
+
+#[derive(Clone, Copy, Debug)]
+struct Shape {
+    name: &'static str,
+    /// number of TxDtls
+    k: usize,
+    /// NtryDtls/Btch rendered (always when k > 0)
+    btch: bool,
+    entry_chg: Chg,
+    det_chg: [Chg; 2],
+    /// AmtDtls (InstdAmt, TxAmt) rendered in each TxDtls
+    amt_dtls: bool,
+}
+
+const fn sh(name: &'static str, k: usize, btch: bool, entry_chg: Chg, d0: Chg, d1: Chg, amt_dtls: bool) -> Shape {
+    Shape { name, k, btch, entry_chg, det_chg: [d0, d1], amt_dtls }
+}
+
+const SHAPES: [Shape; 18] = [
+    sh("k0", 0, false, Chg::None, Chg::None, Chg::None, false),
+    sh("k0-btch", 0, true, Chg::None, Chg::None, Chg::None, false),
+    sh("k1", 1, true, Chg::None, Chg::None, Chg::None, false),
+    sh("k1-amtdtls", 1, true, Chg::None, Chg::None, Chg::None, true),
+    sh("k2", 2, true, Chg::None, Chg::None, Chg::None, false),
+    sh("k2-amtdtls", 2, true, Chg::None, Chg::None, Chg::None, true),
+    sh("k1-zero-chg", 1, true, Chg::None, Chg::Zero, Chg::None, true),
+    sh("k1-entry-incl", 1, true, Chg::Incl, Chg::None, Chg::None, true),
+    sh("k1-det-incl", 1, true, Chg::None, Chg::Incl, Chg::None, true),
+    sh("k1-both-incl", 1, true, Chg::Incl, Chg::Incl, Chg::None, true),
+    sh("k2-det-incl", 2, true, Chg::None, Chg::Incl, Chg::Incl, true),
+    sh("k2-det2-incl", 2, true, Chg::None, Chg::None, Chg::Incl, true),
+    sh("k0-entry-incl", 0, false, Chg::Incl, Chg::None, Chg::None, false),
+    sh("k1-det-incl-noamtdtls", 1, true, Chg::None, Chg::Incl, Chg::None, false),
+    sh("k0-entry-notincl", 0, false, Chg::NotIncl, Chg::None, Chg::None, false),
+    sh("k1-det-notincl", 1, true, Chg::None, Chg::NotIncl, Chg::None, true),
+    sh("k2-det-notincl", 2, true, Chg::None, Chg::NotIncl, Chg::None, true),
+    sh("k2-entry-incl", 2, true, Chg::Incl, Chg::None, Chg::None, true),
+];
+
+impl Shape {
+    fn has_not_included(&self) -> bool {
+        self.entry_chg == Chg::NotIncl || self.det_chg.contains(&Chg::NotIncl)
+    }
+    /// one entry-level charge record on an entry with two details
+    fn entry_charge_on_batch(&self) -> bool {
+        self.k == 2 && self.entry_chg == Chg::Incl
+    }
+    fn has_included(&self) -> bool {
+        self.entry_chg == Chg::Incl || self.det_chg.contains(&Chg::Incl)
+    }
+    /// an included charge but no TxAmt from which the net amount could be read
+    fn included_without_txamt(&self) -> bool {
+        self.has_included() && (self.k == 0 || !self.amt_dtls)
+    }
+}
+
+#[derive(Clone, Copy, Debug)]
+struct EntrySpec {
+    side: Side,
+    amt: usize,
+    dates: Dates,
+    shape: usize,
+}
+
+impl EntrySpec {
+    fn shape(&self) -> &'static Shape {
+        &SHAPES[self.shape]
+    }
+    fn signed(&self, cents: i64) -> i64 {
+        match self.side {
+            Side::Credit => cents,
+            Side::Debit => -cents,
+        }
+    }
+    /// amounts of the details (k = 0: none)
+    fn detail_amounts(&self) -> Vec<i64> {
+        match self.shape().k {
+            0 => vec![],
+            1 => vec![AMOUNTS[self.amt]],
+            _ => vec![FIRST_PART[self.amt], AMOUNTS[self.amt] - FIRST_PART[self.amt]],
+        }
+    }
+    fn name(&self) -> String {
+        format!("{}{}/{}/{}", if self.side == Side::Credit { "+" } else { "-" }, cents(AMOUNTS[self.amt]), self.shape().name, match self.dates {
+            Dates::Same => "val=book",
+            Dates::BookLater => "book=val+1",
+            Dates::BookEarlier => "book=val-1",
+            Dates::ValueAbsent => "no-val",
+            Dates::BookDtTmOnly => "no-val,book=DtTm",
+        })
+    }
+}
+
+/// A consistent statement; `entries` in chronological order.
+#[derive(Clone, Debug)]
+struct Stmt {
+    opening: i64,
+    new_to_old: bool,
+    entries: Vec<EntrySpec>,
+}
+
+impl Stmt {
+    fn closing(&self) -> i64 {
+        self.opening + self.entries.iter().map(|e| e.signed(AMOUNTS[e.amt])).sum::<i64>()
+    }
+    /// (value date, booking date) of the i-th entry in chronological order
+    fn dates(&self, i: usize) -> (Option<NaiveDate>, NaiveDate) {
+        let v = oka::date(2021, 10, 2) + Duration::days(3 * i as i64);
+        match self.entries[i].dates {
+            Dates::Same => (Some(v), v),
+            Dates::BookLater => (Some(v), v + Duration::days(1)),
+            Dates::BookEarlier => (Some(v), v - Duration::days(1)),
+            Dates::ValueAbsent | Dates::BookDtTmOnly => (None, v),
+        }
+    }
+    fn summary(&self) -> String {
+        format!(
+            "opening {} closing {} row_order {} entries(chronological) [{}]",
+            cents(self.opening),
+            cents(self.closing()),
+            if self.new_to_old { "new_to_old" } else { "old_to_new" },
+            self.entries.iter().map(|e| e.name()).collect::<Vec<_>>().join(", ")
+        )
+    }
+}
+
+fn cents(c: i64) -> String {
+    let a = c.abs();
+    let s = if a % 100 == 0 { format!("{}", a / 100) } else { format!("{}.{:02}", a / 100, a % 100) };
+    if c < 0 {
+        format!("-{}", s)
+    } else {
+        s
+    }
+}
+
+fn qc(c: i64) -> Q {
+    Q::new(c as i128, 100)
+}
+
+fn ind(c: i64) -> &'static str {
+    if c < 0 {
+        "DBIT"
+    } else {
+        "CRDT"
+    }
+}
+
+// ------------------------------------------------------------------------------------------
+// XML rendering (skeleton of cli/tests/testdata/import/iso_camt.xml)
+
+fn render_charges(out: &mut String, indent: &str, chg: Chg, amount: i64) {
+    if chg == Chg::None {
+        return;
+    }
+    let amt = if chg == Chg::Zero { 0 } else { amount };
+    out.push_str(&format!("{i}<Chrgs>\n", i = indent));
+    if chg != Chg::Zero {
+        out.push_str(&format!("{i}  <TtlChrgsAndTaxAmt Ccy=\"{c}\">{a}</TtlChrgsAndTaxAmt>\n", i = indent, c = CCY, a = cents(amt)));
+    }
+    out.push_str(&format!("{i}  <Rcrd>\n{i}    <Amt Ccy=\"{c}\">{a}</Amt>\n", i = indent, c = CCY, a = cents(amt)));
+    out.push_str(&format!("{i}    <CdtDbtInd>{d}</CdtDbtInd>\n", i = indent, d = if chg == Chg::Zero { "CRDT" } else { "DBIT" }));
+    match chg {
+        Chg::Incl => out.push_str(&format!("{i}    <ChrgInclInd>true</ChrgInclInd>\n", i = indent)),
+        Chg::NotIncl => out.push_str(&format!("{i}    <ChrgInclInd>false</ChrgInclInd>\n", i = indent)),
+        _ => {}
+    }
+    out.push_str(&format!("{i}    <Tp>\n{i}      <Prtry>\n{i}        <Id>SHAR</Id>\n{i}      </Prtry>\n{i}    </Tp>\n{i}  </Rcrd>\n{i}</Chrgs>\n", i = indent));
+}
+
+fn render_entry(out: &mut String, stmt: &Stmt, i: usize) {
+    let e = &stmt.entries[i];
+    let s = e.shape();
+    let (val, book) = stmt.dates(i);
+    let a = AMOUNTS[e.amt];
+    let cd = ind(e.signed(1));
+    out.push_str("      <Ntry>\n");
+    out.push_str(&format!("        <Amt Ccy=\"{}\">{}</Amt>\n        <CdtDbtInd>{}</CdtDbtInd>\n", CCY, cents(a), cd));
+    out.push_str("        <RvslInd>false</RvslInd>\n        <Sts>BOOK</Sts>\n");
+    if e.dates == Dates::BookDtTmOnly {
+        // 00:30 local time at +02:00 is still the previous day in UTC: the booking DATE is the local one
+        out.push_str(&format!("        <BookgDt>\n          <DtTm>{}T00:30:00+02:00</DtTm>\n        </BookgDt>\n", book.format("%Y-%m-%d")));
+    } else {
+        out.push_str(&format!("        <BookgDt>\n          <Dt>{}</Dt>\n        </BookgDt>\n", book.format("%Y-%m-%d")));
+    }
+    if let Some(v) = val {
+        out.push_str(&format!("        <ValDt>\n          <Dt>{}</Dt>\n        </ValDt>\n", v.format("%Y-%m-%d")));
+    }
+    let fam = if e.side == Side::Credit { "RCDT" } else { "ICDT" };
+    out.push_str(&format!("        <BkTxCd>\n          <Domn>\n            <Cd>PMNT</Cd>\n            <Fmly>\n              <Cd>{}</Cd>\n              <SubFmlyCd>OTHR</SubFmlyCd>\n            </Fmly>\n          </Domn>\n        </BkTxCd>\n", fam));
+    render_charges(out, "        ", s.entry_chg, ENTRY_CHARGE);
+    if s.btch || s.k > 0 {
+        out.push_str("        <NtryDtls>\n");
+        out.push_str(&format!("          <Btch>\n            <NbOfTxs>{}</NbOfTxs>\n            <TtlAmt Ccy=\"{}\">{}</TtlAmt>\n            <CdtDbtInd>{}</CdtDbtInd>\n          </Btch>\n", s.k.max(1), CCY, cents(a), cd));
+        for (j, da) in e.detail_amounts().iter().enumerate() {
+            out.push_str("          <TxDtls>\n");
+            out.push_str(&format!("            <Refs>\n              <AcctSvcrRef>REF/{}/{}</AcctSvcrRef>\n              <EndToEndId>NOTPROVIDED</EndToEndId>\n            </Refs>\n", i + 1, j + 1));
+            out.push_str(&format!("            <Amt Ccy=\"{}\">{}</Amt>\n            <CdtDbtInd>{}</CdtDbtInd>\n", CCY, cents(*da), cd));
+            if s.amt_dtls {
+                // charges carried by this detail
+                let mut incl = 0;
+                let mut not_incl = 0;
+                match s.det_chg[j] {
+                    Chg::Incl => incl += DETAIL_CHARGE,
+                    Chg::NotIncl => not_incl += DETAIL_CHARGE,
+                    _ => {}
+                }
+                if j == 0 {
+                    match s.entry_chg {
+                        Chg::Incl => incl += ENTRY_CHARGE,
+                        Chg::NotIncl => not_incl += ENTRY_CHARGE,
+                        _ => {}
+                    }
+                }
+                // net amount of the underlying transaction: debit: the account paid amount = net + charge;
+                // credit: the account received amount = net - charge
+                let tx_amt = if e.side == Side::Debit { da - incl } else { da + incl };
+                let instd = if e.side == Side::Debit { tx_amt - not_incl } else { tx_amt + not_incl };
+                out.push_str(&format!("            <AmtDtls>\n              <InstdAmt>\n                <Amt Ccy=\"{c}\">{i}</Amt>\n              </InstdAmt>\n              <TxAmt>\n                <Amt Ccy=\"{c}\">{t}</Amt>\n              </TxAmt>\n            </AmtDtls>\n", c = CCY, i = cents(instd), t = cents(tx_amt)));
+            }
+            render_charges(out, "            ", s.det_chg[j], DETAIL_CHARGE);
+            let (me, other) = if e.side == Side::Credit { ("Cdtr", "Dbtr") } else { ("Dbtr", "Cdtr") };
+            out.push_str(&format!("            <RltdPties>\n              <{o}>\n                <Nm>Party {i}.{j}</Nm>\n              </{o}>\n              <{m}>\n                <Nm>Taro Yamada</Nm>\n              </{m}>\n            </RltdPties>\n", o = other, m = me, i = i + 1, j = j + 1));
+            out.push_str(&format!("            <AddtlTxInf>detail {}.{}</AddtlTxInf>\n          </TxDtls>\n", i + 1, j + 1));
+        }
+        out.push_str("        </NtryDtls>\n");
+    }
+    out.push_str(&format!("        <AddtlNtryInf>entry {}</AddtlNtryInf>\n      </Ntry>\n", i + 1));
+}
+
+fn render_balance(out: &mut String, code: &str, v: i64, date: &str) {
+    out.push_str(&format!("      <Bal>\n        <Tp>\n          <CdOrPrtry>\n            <Cd>{}</Cd>\n          </CdOrPrtry>\n        </Tp>\n        <Amt Ccy=\"{}\">{}</Amt>\n        <CdtDbtInd>{}</CdtDbtInd>\n        <Dt>\n          <Dt>{}</Dt>\n        </Dt>\n      </Bal>\n", code, CCY, cents(v.abs()), ind(v), date));
+}
+
+fn render_xml(stmt: &Stmt) -> String {
+    let mut o = String::with_capacity(4096);
+    o.push_str("<?xml version=\"1.0\" encoding=\"UTF-8\"?>\n<Document xmlns=\"urn:iso:std:iso:20022:tech:xsd:camt.053.001.04\">\n  <BkToCstmrStmt>\n");
+    o.push_str("    <GrpHdr>\n      <MsgId>2021103100000000</MsgId>\n      <CreDtTm>2021-10-31T00:00:00</CreDtTm>\n      <MsgPgntn>\n        <PgNb>1</PgNb>\n        <LastPgInd>true</LastPgInd>\n      </MsgPgntn>\n    </GrpHdr>\n");
+    o.push_str("    <Stmt>\n      <Id>2021103100000000</Id>\n      <ElctrncSeqNb>2</ElctrncSeqNb>\n      <CreDtTm>2021-10-31T00:00:00</CreDtTm>\n      <FrToDt>\n        <FrDtTm>2021-10-01T00:00:00</FrDtTm>\n        <ToDtTm>2021-10-30T23:59:59</ToDtTm>\n      </FrToDt>\n");
+    o.push_str(&format!("      <Acct>\n        <Id>\n          <IBAN>CH3689144511369184655</IBAN>\n        </Id>\n        <Ccy>{}</Ccy>\n        <Ownr>\n          <Nm>Taro Yamada</Nm>\n        </Ownr>\n      </Acct>\n", CCY));
+    render_balance(&mut o, "OPBD", stmt.opening, "2021-10-01");
+    render_balance(&mut o, "CLBD", stmt.closing(), "2021-10-31");
+    let credits: i64 = stmt.entries.iter().filter(|e| e.side == Side::Credit).map(|e| AMOUNTS[e.amt]).sum();
+    let debits: i64 = stmt.entries.iter().filter(|e| e.side == Side::Debit).map(|e| AMOUNTS[e.amt]).sum();
+    o.push_str(&format!(
+        "      <TxsSummry>\n        <TtlNtries>\n          <NbOfNtries>{}</NbOfNtries>\n          <Sum>{}</Sum>\n          <TtlNetNtry>\n            <Amt>{}</Amt>\n            <CdtDbtInd>{}</CdtDbtInd>\n          </TtlNetNtry>\n        </TtlNtries>\n      </TxsSummry>\n",
+        stmt.entries.len(),
+        cents(credits + debits),
+        cents((credits - debits).abs()),
+        ind(credits - debits)
+    ));
+    let n = stmt.entries.len();
+    for pos in 0..n {
+        let i = if stmt.new_to_old { n - 1 - pos } else { pos };
+        render_entry(&mut o, stmt, i);
+    }
+    o.push_str("    </Stmt>\n  </BkToCstmrStmt>\n</Document>\n");
+    o
+}
+
+const FILE_O2N: &str = "stmt_o2n.xml";
+const FILE_N2O: &str = "stmt_n2o.xml";
+
+fn config_yaml() -> String {
+    let one = |file: &str, order: &str| {
+        format!(
+            "path: {}\nencoding: UTF-8\naccount: {}\naccount_type: asset\noperator: Okane Bank (fee)\ncommodity: {}\nformat:\n  commodity:\n    {}:\n      precision: 2\n  row_order: {}\nrewrite:\n  - matcher:\n      additional_entry_info: \"(?P<payee>.+)\"\n",
+            file, ACCOUNT, CCY, CCY, order
+        )
+    };
+    format!("{}---\n{}", one(FILE_O2N, "old_to_new"), one(FILE_N2O, "new_to_old"))
+}
+
+// ------------------------------------------------------------------------------------------
+// Reference import
+
+#[derive(Clone, Debug, PartialEq)]
+struct ExpTxn {
+    date: NaiveDate,
+    eff: Option<NaiveDate>,
+    amt: i64,
+}
+
+/// The entry transactions the statement promises, in ledger order.
+fn expected(stmt: &Stmt) -> Vec<ExpTxn> {
+    let mut v = vec![];
+    for (i, e) in stmt.entries.iter().enumerate() {
+        let (val, book) = stmt.dates(i);
+        let date = val.unwrap_or(book);
+        let eff = match val {
+            Some(vd) if vd != book => Some(book),
+            _ => None,
+        };
+        let ds = e.detail_amounts();
+        if ds.is_empty() {
+            v.push(ExpTxn { date, eff, amt: e.signed(AMOUNTS[e.amt]) });
+        } else {
+            for d in ds {
+                v.push(ExpTxn { date, eff, amt: e.signed(d) });
+            }
+        }
+    }
+    v
+}
+
+// ------------------------------------------------------------------------------------------
+// Observation
+
+#[derive(Clone, Debug, PartialEq)]
+struct ObsPost {
+    amount: Option<(Q, String)>,
+    balance: Option<(Q, String)>,
+    literal: bool,
+}
+
+#[derive(Clone, Debug, PartialEq)]
+struct ObsTxn {
+    date: NaiveDate,
+    eff: Option<NaiveDate>,
+    /// postings on the imported account
+    acct: Vec<ObsPost>,
+    nposts: usize,
+}
+
+fn lit(v: &expr::ValueExpr<'_>) -> Option<(Q, String)> {
+    match v {
+        expr::ValueExpr::Amount(a) => Some((Q::from_decimal(a.value.value), a.commodity.to_string())),
+        _ => None,
+    }
+}
+
+fn observe(t: &plain::Transaction<'_>) -> ObsTxn {
+    let mut acct = vec![];
+    for p in &t.posts {
+        if p.account.as_ref() == ACCOUNT {
+            let amount = p.amount.as_ref().and_then(|a| lit(&a.amount));
+            let balance = p.balance.as_ref().and_then(lit);
+            let literal = p.amount.as_ref().map(|a| lit(&a.amount).is_some()).unwrap_or(false) && p.balance.as_ref().map(|b| lit(b).is_some()).unwrap_or(true);
+            acct.push(ObsPost { amount, balance, literal });
+        }
+    }
+    ObsTxn { date: t.date, eff: t.effective_date, acct, nposts: t.posts.len() }
+}
+
+struct Scratch {
+    config_path: PathBuf,
+    o2n: PathBuf,
+    n2o: PathBuf,
+    cfg_o2n: okane::import::config::ConfigEntry,
+    cfg_n2o: okane::import::config::ConfigEntry,
+}
+
+fn scratch() -> Scratch {
+    let dir = oka::scratch_dir("c18");
+    let config_path = dir.join("config.yml");
+    std::fs::write(&config_path, config_yaml()).expect("harness bug: cannot write config");
+    let set = okane::import::config::load_from_yaml(config_yaml().as_bytes()).expect("harness bug: config does not load");
+    let o2n = dir.join(FILE_O2N);
+    let n2o = dir.join(FILE_N2O);
+    let cfg_o2n = set.select(&o2n).expect("harness bug: select").expect("harness bug: no config entry");
+    let cfg_n2o = set.select(&n2o).expect("harness bug: select").expect("harness bug: no config entry");
+    if cfg_o2n.format.row_order != okane::import::config::RowOrder::OldToNew || cfg_n2o.format.row_order != okane::import::config::RowOrder::NewToOld {
+        panic!("harness bug: row_order not taken from the config");
+    }
+    Scratch { config_path, o2n, n2o, cfg_o2n, cfg_n2o }
+}
+
+/// (a) library entry point
+fn run_lib(sc: &Scratch, stmt: &Stmt, xml: &str) -> Result<Vec<ObsTxn>, String> {
+    let cfg = if stmt.new_to_old { &sc.cfg_n2o } else { &sc.cfg_o2n };
+    let txns = okane::import::import(xml.as_bytes(), okane::import::Format::IsoCamt053, cfg).map_err(|e| format!("import(): {}", e))?;
+    let mut out = vec![];
+    for t in &txns {
+        let d = t.to_double_entry(ACCOUNT).map_err(|e| format!("to_double_entry(): {}", e))?;
+        out.push(observe(&d));
+    }
+    Ok(out)
+}
+
+/// Overwrite without O_TRUNC: ext4 flushes synchronously on close after a truncate-to-zero (2.6 ms per case).
+fn write_in_place(path: &std::path::Path, data: &[u8]) {
+    use std::io::Write;
+    let mut f = std::fs::OpenOptions::new().write(true).create(true).truncate(false).open(path).expect("harness bug: cannot open statement file");
+    f.write_all(data).expect("harness bug: cannot write statement");
+    f.set_len(data.len() as u64).expect("harness bug: cannot size statement file");
+}
+
+/// (b) the command, on real files
+fn run_cmd(sc: &Scratch, stmt: &Stmt, xml: &str) -> Result<String, String> {
+    let source = if stmt.new_to_old { &sc.n2o } else { &sc.o2n };
+    write_in_place(source, xml.as_bytes());
+    let mut out: Vec<u8> = vec![];
+    okane::cmd::ImportCmd { config: sc.config_path.clone(), source: source.clone() }.run(&mut out).map_err(|e| format!("ImportCmd::run: {}", e))?;
+    String::from_utf8(out).map_err(|_| "ImportCmd::run: output is not UTF-8".to_string())
+}
+
+fn parse_text(text: &str) -> Result<Vec<ObsTxn>, String> {
+    let mut v = vec![];
+    for r in parse_ledger::<plain::Ident>(&ParseOptions::default(), text) {
+        match r {
+            Ok((_, okane_core::syntax::LedgerEntry::Txn(t))) => v.push(observe(&t)),
+            Ok(_) => {}
+            Err(e) => return Err(e.to_string()),
+        }
+    }
+    Ok(v)
+}
+
+fn show_obs(v: &[ObsTxn]) -> String {
+    v.iter()
+        .map(|t| {
+            format!(
+                "{}{} [{}]",
+                t.date,
+                t.eff.map(|e| format!("={}", e)).unwrap_or_default(),
+                t.acct.iter().map(|p| format!("{}{}", p.amount.as_ref().map(|a| a.0.to_string()).unwrap_or("?".into()), p.balance.as_ref().map(|b| format!(" = {}", b.0)).unwrap_or_default())).collect::<Vec<_>>().join("; ")
+            )
+        })
+        .collect::<Vec<_>>()
+        .join(" | ")
+}
+
+/// Shape clauses of the statement on one observation. `who` = "txns" | "text".
+fn judge_shape(who: &str, stmt: &Stmt, exp: &[ExpTxn], obs: &[ObsTxn]) -> Option<Outcome> {
+    let viol = |sig: &str, detail: String| Some(Outcome::violation(format!("{}@{}", sig, who), format!("{}\nexpected entry transactions: {:?}\nobserved: {}", detail, exp, show_obs(obs))));
+    if stmt.entries.is_empty() {
+        return None;
+    }
+    // one opening-balance transaction + one per entry / detail
+    if obs.len() != exp.len() + 1 {
+        let kind = if obs.len() == exp.len() { "no-opening-transaction-or-one-missing" } else if obs.len() > exp.len() + 1 { "too-many" } else { "too-few" };
+        return viol(&format!("shape/count/{}", kind), format!("{} transactions imported, the statement promises 1 + {}", obs.len(), exp.len()));
+    }
+    // every transaction has exactly one literal posting on the account in the statement's currency
+    for (i, t) in obs.iter().enumerate() {
+        if t.acct.len() != 1 || !t.acct[0].literal || t.acct[0].amount.as_ref().map(|a| a.1.as_str()) != Some(CCY) {
+            return viol("shape/account-posting/not-exactly-one", format!("transaction #{} has {} postings on {} (or not a plain {} amount)", i, t.acct.len(), ACCOUNT, CCY));
+        }
+    }
+    let amt = |t: &ObsTxn| t.acct[0].amount.as_ref().unwrap().0;
+    // T0 asserts the opening balance
+    match &obs[0].acct[0].balance {
+        None => return viol("shape/opening-assertion/missing", "the first transaction does not assert the opening balance".into()),
+        Some((v, c)) => {
+            if *v != qc(stmt.opening) || c != CCY {
+                return viol("shape/opening-assertion/wrong", format!("the first transaction asserts {} {} instead of the opening balance {}", v, c, cents(stmt.opening)));
+            }
+        }
+    }
+    // account postings: sign and amount, in order
+    let got: Vec<Q> = obs[1..].iter().map(amt).collect();
+    let want: Vec<Q> = exp.iter().map(|e| qc(e.amt)).collect();
+    if got != want {
+        let neg: Vec<Q> = want.iter().map(|q| q.neg()).collect();
+        let mut gs = got.clone();
+        let mut ws = want.clone();
+        gs.sort();
+        ws.sort();
+        let kind = if got == neg {
+            "sign-flipped"
+        } else if gs == ws {
+            "order"
+        } else if got.iter().zip(&want).all(|(g, w)| g.abs() == w.abs()) {
+            "sign"
+        } else {
+            "amount"
+        };
+        return viol(&format!("shape/account-posting/{}", kind), format!("account postings {:?} but the statement says {:?}", got.iter().map(|q| q.to_string()).collect::<Vec<_>>(), want.iter().map(|q| q.to_string()).collect::<Vec<_>>()));
+    }
+    // dates
+    for (i, (t, e)) in obs[1..].iter().zip(exp).enumerate() {
+        if t.date != e.date {
+            return viol("shape/date", format!("entry transaction #{} dated {} instead of {}", i + 1, t.date, e.date));
+        }
+        match (t.eff, e.eff) {
+            (a, b) if a == b => {}
+            (Some(a), None) => {
+                let kind = if a == t.date { "set-although-equal" } else { "unexpected" };
+                return viol(&format!("shape/effective-date/{}", kind), format!("entry transaction #{} has effective date {} but booking date and value date do not differ", i + 1, a));
+            }
+            (None, Some(b)) => return viol("shape/effective-date/missing", format!("entry transaction #{} lacks the effective date {} (booking date differs from value date)", i + 1, b)),
+            (Some(a), Some(b)) => return viol("shape/effective-date/wrong", format!("entry transaction #{} has effective date {} instead of the booking date {}", i + 1, a, b)),
+            _ => unreachable!(),
+        }
+    }
+    // closing balance on the last transaction
+    let last = obs.last().unwrap();
+    match &last.acct[0].balance {
+        None => {
+            let elsewhere = obs[1..obs.len() - 1].iter().position(|t| t.acct[0].balance.as_ref().map(|b| b.0) == Some(qc(stmt.closing())));
+            let kind = if elsewhere.is_some() { "not-on-last" } else { "missing" };
+            return viol(&format!("shape/closing-assertion/{}", kind), format!("the last transaction does not assert the closing balance {}", cents(stmt.closing())));
+        }
+        Some((v, c)) => {
+            if *v != qc(stmt.closing()) || c != CCY {
+                return viol("shape/closing-assertion/wrong", format!("the last transaction asserts {} {} instead of the closing balance {}", v, c, cents(stmt.closing())));
+            }
+        }
+    }
+    None
+}
+
+fn funding(opening: i64) -> String {
+    format!("2021/09/01 * funding\n    {}    {} {}\n    Equity:Opening    {} {}\n\n", ACCOUNT, cents(opening), CCY, cents(-opening), CCY)
+}
+
+fn judge(sc: &Scratch, stmt: &Stmt, xml: &str, txns_compared: &mut u64) -> Outcome {
+    let exp = expected(stmt);
+    // --- run the real importer, both ways
+    let lib = run_lib(sc, stmt, xml);
+    let cmd = run_cmd(sc, stmt, xml);
+    if stmt.entries.is_empty() {
+        // no transaction can carry the two assertions: the statement is silent. Only record what happens.
+        return match (&lib, &cmd) {
+            (Err(_), Err(_)) => Outcome::dont_care("dc/no-entries/import-fails"),
+            (Ok(v), Ok(t)) if v.is_empty() && t.trim().is_empty() => Outcome::dont_care("dc/no-entries/empty-ledger"),
+            (Ok(_), Ok(_)) => Outcome::dont_care("dc/no-entries/some-ledger"),
+            _ => Outcome::violation("library-and-command-disagree/no-entries", format!("import(): {:?}\nImportCmd: {:?}", lib.as_ref().map(|v| show_obs(v)), cmd)),
+        };
+    }
+    let lib = match lib {
+        Ok(v) => v,
+        Err(e) => return Outcome::violation(format!("import-fails/{}", e.split(':').next().unwrap_or("")), format!("the importer rejected a consistent statement: {}", e)),
+    };
+    let text = match cmd {
+        Ok(t) => t,
+        Err(e) => return Outcome::violation("import-fails/ImportCmd", format!("the import command rejected a consistent statement although import() succeeded: {}", e)),
+    };
+    let parsed = match parse_text(&text) {
+        Ok(v) => v,
+        Err(e) => return Outcome::violation("printed-text-does-not-parse", format!("okane cannot read its own import output: {}\n{}", e, text)),
+    };
+    *txns_compared += (lib.len() + parsed.len()) as u64;
+    // --- shape clauses, on both observations
+    if let Some(v) = judge_shape("txns", stmt, &exp, &lib) {
+        return v;
+    }
+    if let Some(v) = judge_shape("text", stmt, &exp, &parsed) {
+        return v;
+    }
+    if lib != parsed {
+        return Outcome::violation("text-differs-from-transactions", format!("import() gives {} but the printed text reads {}\n{}", show_obs(&lib), show_obs(&parsed), text));
+    }
+    // --- conservation on the postings themselves
+    let sum = parsed.iter().flat_map(|t| t.acct.iter()).filter_map(|p| p.amount.as_ref().map(|a| a.0)).fold(Q::ZERO, |a, b| a.add(b));
+    let delta = qc(stmt.closing() - stmt.opening);
+    if sum != delta {
+        return Outcome::violation("sum-of-account-postings-differs", format!("account postings sum to {} but closing - opening = {}", sum, delta));
+    }
+    // --- feed back through okane's own book-keeping
+    // outside the quantifier ("charges included in the amount"): executed and recorded, not judged
+    let dc_reason = if stmt.entries.iter().any(|e| e.shape().has_not_included()) { Some("charge-not-included") } else { None };
+    let ledger = format!("{}{}", funding(stmt.opening), text);
+    // input-shape part of the signatures of the book-keeping clauses
+    let ctxt = if stmt.entries.iter().any(|e| e.shape().included_without_txamt()) {
+        "included-charge-without-TxAmt"
+    } else if stmt.entries.iter().any(|e| e.shape().entry_charge_on_batch()) {
+        "entry-charge-on-batch"
+    } else if stmt.entries.iter().any(|e| e.shape().has_included()) {
+        "included-charge-with-TxAmt"
+    } else {
+        "no-charge"
+    };
+    let res = oka::process_text(&ledger);
+    match (&res, dc_reason) {
+        (Err(_), Some(r)) => return Outcome::dont_care(format!("dc/{}/{}/rejected", r, ctxt)),
+        (Err(e), None) => {
+            return Outcome::violation(format!("bookkeeping-rejects/{}/{}", e.variant, ctxt), format!("okane's book-keeping rejects the ledger made of the funding transaction and its own import output:\n{}\n--- ledger ---\n{}", e.rendered, ledger));
+        }
+        _ => {}
+    }
+    let (bal, _) = res.unwrap();
+    let fin = bal.get(ACCOUNT).and_then(|m| m.get(CCY)).copied().unwrap_or(Q::ZERO);
+    let extra = bal.get(ACCOUNT).map(|m| m.keys().any(|k| k != CCY)).unwrap_or(false);
+    if fin != qc(stmt.closing()) || extra {
+        if let Some(r) = dc_reason {
+            return Outcome::dont_care(format!("dc/{}/{}/final-balance-differs", r, ctxt));
+        }
+        return Outcome::violation(format!("final-balance-differs/{}", ctxt), format!("the account ends at {} but the closing balance is {}\n--- ledger ---\n{}", fin, cents(stmt.closing()), ledger));
+    }
+    if let Some(r) = dc_reason {
+        return Outcome::dont_care(format!("dc/{}/{}/accepted", r, ctxt));
+    }
+    // class: what the statement exercised
+    let n = stmt.entries.len();
+    let batch = stmt.entries.iter().any(|e| e.shape().k == 2);
+    let chg = stmt.entries.iter().any(|e| e.shape().has_included());
+    let eff = exp.iter().any(|e| e.eff.is_some());
+    let noval = stmt.entries.iter().any(|e| matches!(e.dates, Dates::ValueAbsent | Dates::BookDtTmOnly));
+    Outcome::pass(format!("n{}/{}/{}{}{}{}", n, if stmt.new_to_old { "n2o" } else { "o2n" }, if batch { "B" } else { "-" }, if chg { "C" } else { "-" }, if eff { "E" } else { "-" }, if noval { "V" } else { "-" }))
+}
+
+// ------------------------------------------------------------------------------------------
+// Enumeration
+
+fn alphabet(sides: &[Side], amts: &[usize], dates: &[Dates], shapes: &[usize]) -> Vec<EntrySpec> {
+    // simplest first: shape is the slowest digit, then dates, amount, side
+    let mut v = vec![];
+    for &shape in shapes {
+        for &d in dates {
+            for &amt in amts {
+                for &side in sides {
+                    v.push(EntrySpec { side, amt, dates: d, shape });
+                }
+            }
+        }
+    }
+    v
+}
+
+fn shape_idx(name: &str) -> usize {
+    SHAPES.iter().position(|s| s.name == name).expect("harness bug: unknown shape")
+}
+
+struct Family {
+    name: &'static str,
+    n: usize,
+    alpha: Vec<EntrySpec>,
+}
+
+fn families(thorough: bool) -> Vec<Family> {
+    let both = [Side::Credit, Side::Debit];
+    let all_amts = [0usize, 1, 2];
+    let all_dates = [Dates::Same, Dates::BookLater, Dates::BookEarlier, Dates::ValueAbsent, Dates::BookDtTmOnly];
+    let all_shapes: Vec<usize> = (0..SHAPES.len()).collect();
+    let idx = |names: &[&str]| -> Vec<usize> { names.iter().map(|n| shape_idx(n)).collect() };
+    // E: 2 x 3 x 5 x 18 = 540
+    let full = alphabet(&both, &all_amts, &all_dates, &all_shapes);
+    // E2: 2 x 3 x 2 x 8 = 96
+    let e2 = alphabet(&both, &all_amts, &[Dates::Same, Dates::BookLater], &idx(&["k0", "k1", "k2", "k1-entry-incl", "k2-det-incl", "k0-entry-incl", "k2-entry-incl", "k1-det-notincl"]));
+    // Ed: 2 x 1 x 5 x 2 = 20 (all date combinations of two entries)
+    let ed = alphabet(&both, &[1], &all_dates, &idx(&["k0", "k2"]));
+    // E3: 2 x 3 x 1 x 2 = 12
+    let e3 = alphabet(&both, &all_amts, &[Dates::Same], &idx(&["k0", "k2-det-incl"]));
+    let mut f = vec![Family { name: "F0", n: 0, alpha: vec![] }, Family { name: "F1", n: 1, alpha: full.clone() }];
+    if !thorough {
+        f.push(Family { name: "F2", n: 2, alpha: e2 });
+        f.push(Family { name: "F2d", n: 2, alpha: ed });
+        f.push(Family { name: "F3", n: 3, alpha: e3 });
+    } else {
+        f.push(Family { name: "F2", n: 2, alpha: full });
+        // E3t: 2 x 3 x 2 x 6 = 72
+        let e3t = alphabet(&both, &all_amts, &[Dates::Same, Dates::BookLater], &idx(&["k0", "k2", "k1-entry-incl", "k2-det-incl", "k0-entry-incl", "k2-entry-incl"]));
+        f.push(Family { name: "F3", n: 3, alpha: e3t });
+        f.push(Family { name: "F4", n: 4, alpha: e3 });
+    }
+    f
+}
+
+fn run(ctx: &mut Ctx) {
+    let thorough = ctx.tier.pick(false, true);
+    let fams = families(thorough);
+    let sc = scratch();
+    let mut total: u64 = 0;
+    for fam in &fams {
+        let a = fam.alpha.len() as u64;
+        let seqs = a.pow(fam.n as u32);
+        let count = seqs * 6;
+        total += count;
+        ctx.fact(&format!("statements_{}", fam.name), count);
+        ctx.fact(&format!("alphabet_{}", fam.name), a);
+        for idx in 0..count {
+            if !ctx.next_is_mine() {
+                ctx.skip_cases(1);
+                continue;
+            }
+            // digits: entries (last entry fastest), then row order, then opening (slowest)
+            let mut r = idx;
+            let mut entries: Vec<EntrySpec> = Vec::with_capacity(fam.n);
+            for _ in 0..fam.n {
+                entries.push(fam.alpha[(r % a) as usize]);
+                r /= a;
+            }
+            entries.reverse();
+            let new_to_old = r % 2 == 1;
+            r /= 2;
+            let opening = OPENINGS[(r % 3) as usize];
+            let stmt = Stmt { opening, new_to_old, entries };
+            let xml = render_xml(&stmt);
+            let mut compared = 0u64;
+            ctx.case(|| format!("{}\n--- config ---\n{}--- statement ({}) ---\n{}", stmt.summary(), config_yaml(), if stmt.new_to_old { FILE_N2O } else { FILE_O2N }, xml), || judge(&sc, &stmt, &xml, &mut compared));
+            ctx.count("transitions", compared);
+            ctx.count("states", 1);
+            ctx.count("entries", stmt.entries.len() as u64);
+            ctx.count("details", stmt.entries.iter().map(|e| e.shape().k as u64).sum());
+        }
+    }
+    ctx.fact("statements_total", total);
+}
